@@ -51,6 +51,7 @@ def park_writer(r, state, sync_off):
         r.sql("w1", "PRAGMA cache_size=1")
         r.sql("w1", "BEGIN IMMEDIATE")
         r.sql("w1", "UPDATE meta SET v = v + 100")
+        r.sql("w1", "UPDATE w SET v = v + 1000")
         r.sql("w1", "UPDATE t SET b = b || 'spill spill spill spill'")
         r.kill("w1")
     else:
@@ -94,12 +95,22 @@ def sched_writer_states(h, d, tier):
                 r.sql("w1", "UPDATE meta SET v = v + 1")
                 r.sql("w1", "UPDATE t SET b = 'second' WHERE id < 5")
                 r.sql("w1", "COMMIT", commits=True)
+                if (i // 2) % 2 == 0 or st == "KILLED_SPILL":
+                    # ... and it has read again since that commit: nothing in the header will have moved when it reads next
+                    r.start("h1", c06.OPS["select_meta"]); r.finish("h1")
+            # what table w holds according to the last commit (a table the aged handle has not read: nothing of it is cached)
+            import sqlite3
+            from vlib import values
+            con_ = sqlite3.connect(r.db)
+            con_.text_factory = values.TextBytes
+            w_committed = [[values.to_jval(values.from_sqlite(x)) for x in row] for row in con_.execute("SELECT k, v FROM w ORDER BY k")]
+            con_.close()
             park_writer(r, st, sync_off)
             if not aged:
                 r.open("h1")
-            ops = READ_OPS
+            ops = READ_OPS if st != "KILLED_SPILL" else ["select_w"] + READ_OPS
             for opn in ops:
-                r.start("h1", c06.OPS[opn], gate_on=["L", "l", "U"])
+                r.start("h1", c06.OPS[opn], gate_on=["L", "l", "U"], expect=w_committed if (opn == "select_w" and st in ("KILLED_SPILL", "RESERVED", "RESERVED_DIRTY", "UNLOCKED", "SHARED")) else None)
                 r.finish("h1")
             release_writer(r, st)
             r.start("h1", c06.OPS["select_meta"]); r.finish("h1")
